@@ -52,6 +52,12 @@ def events(seed, n):
                         pool = names_ascii if fmt == "fits" else names_ascii + names_uni
                         nm = [str(x) for x in rng.choice(pool, size=ndim, replace=False)]
                         g = NssGrid(data.copy(), [a.copy() for a in axes], nm)
+                        # other grids come into being between construction and write (slices, interpolated slices, unrelated tables with
+                        # other axis names and another number of axes): a grid's file is the grid's, whatever else exists in the process
+                        decoy = NssGrid(np.arange(24.0).reshape(2, 3, 4), [np.arange(2.0), np.arange(3.0), np.arange(4.0)], ["d_x", "d_y", "d_z"])
+                        decoy2 = decoy[1, :, :]
+                        decoy3 = grid_slice_interp(decoy, 0.5, "d_x")
+                        decoy4 = NssGrid(np.arange(5.0), [np.arange(5.0) * 0.5], ["solo"])
                         path = os.path.join(tmp, f"g{case}.{'h5' if fmt == 'hdf5' else 'fits'}")
                         slot = "p1" if fmt == "hdf5" else "p2"
                         meta = {"fmt": fmt, "shape": list(shape), "dtype": dt, "names": nm}
@@ -137,6 +143,49 @@ def events(seed, n):
             for i in range(m):
                 ev.append({"kind": "Interp", "row": bits_array(rows[i]), "ys": bits_array(ys), "x": bits(x[i]), "y": bits(y[i]),
                            "_m": {"row": rows[i].tolist(), "x": float(x[i]), "y": float(y[i])}})
+        # queries one / a few ulps next to a node (also next to a plateau), in EVERY row position of a batch: what a row returns does not
+        # depend on where in the batch it sits
+        for _ in range(max(6, n // 4)):
+            k = int(rng.integers(4, 9))
+            m = int(rng.integers(2, 7))
+            rows = np.sort(rng.choice(np.arange(0, 9) / 8.0 + rng.choice([0.0, 0.05, 1e-3]), size=(m, k)), axis=1)
+            rows[:, 0] = 0.0
+            rows[:, -1] = 1.0
+            ys = np.sort(rng.uniform(-3, 3, k))
+            x = np.empty(m)
+            for i in range(m):
+                inner = [v for v in rows[i, 1:-1] if 0.0 < v < 1.0]
+                node = float(rng.choice(inner)) if inner else 0.5
+                step = int(rng.choice([1, 2, 5]))
+                q = node
+                for _k in range(step):
+                    q = float(np.nextafter(q, np.inf if rng.random() < 0.5 else -np.inf))
+                x[i] = q if 0.0 < q < 1.0 else 0.5
+            try:
+                y = vec_1d_interp(rows.copy(), ys.copy(), x.copy())
+            except Exception as ex:      # a legal batch that raises
+                y = np.full(m, np.nan)
+            for i in range(m):
+                ev.append({"kind": "Interp", "row": bits_array(rows[i]), "ys": bits_array(ys), "x": bits(x[i]), "y": bits(y[i]),
+                           "_m": {"row": rows[i].tolist(), "x": float(x[i]), "y": float(y[i]), "batch_pos": i, "near_node": True}})
+        # a LARGE batch (more rows than the 8192-element iterator buffer, more than 2**16 table elements) of rows with a very fine tail,
+        # as the shipped CDF rows have; a sample of the rows (first, last, around 4096 / 8192, random ones) is judged like any other row
+        k = 12
+        m = 9001
+        base = np.array([0.0, 1e-12, 2e-12, 3e-12, 1e-9, 1e-6, 1e-3, 0.1, 0.5, 0.9, 0.999, 1.0])
+        rows = np.tile(base, (m, 1))
+        rows[:, 4:11] *= rng.uniform(0.9, 1.1, size=(m, 7))
+        rows = np.sort(rows, axis=1)
+        ys = np.linspace(-7.0, 0.0, k)
+        x = rng.choice([0.5e-12, 1.5e-12, 2.5e-12, 2e-10, 0.3, 0.95], size=m)
+        try:
+            y = vec_1d_interp(rows.copy(), ys.copy(), x.copy())
+        except Exception as ex:
+            y = np.full(m, np.nan)
+        pick = sorted(set([0, 1, 2, 4095, 4096, 4097, 8190, 8191, 8192, 8193, m - 2, m - 1]) | set(int(i) for i in rng.integers(0, m, 40)))
+        for i in pick:
+            ev.append({"kind": "Interp", "row": bits_array(rows[i]), "ys": bits_array(ys), "x": bits(x[i]), "y": bits(y[i]),
+                       "_m": {"row": rows[i].tolist(), "x": float(x[i]), "y": float(y[i]), "batch_pos": i, "batch": m}})
     finally:
         shutil.rmtree(tmp, ignore_errors=True)
     return ev
